@@ -3,8 +3,8 @@ SPEC = {
     'engine': 'hb', 'harness': 'hb.cpp',
     'repo_srcs': ['N2kMsg.cpp', 'N2kStream.cpp', 'N2kMessages.cpp', 'N2kTimer.cpp', 'N2kGroupFunction.cpp', 'N2kGroupFunctionDefaultHandlers.cpp', 'NMEA2000.cpp', 'N2kDeviceList.cpp'],
     'variants': ['', 't32'],
-    'lean_modules': ['N2k.Props.C12'], 'props_files': ['N2k/Props/C12.lean'],
-    'translators': ['pgn_tables'],
+    'lean_modules': ['N2k.Props.Consts.C12', 'N2k.Props.C12'], 'props_files': ['N2k/Props/Consts/C12.lean', 'N2k/Props/C12.lean'],
+    'translators': ['constants', 'pgn_tables'],
     'case_start': ['scenario', 'devlist'],
     'oracle_prefixes': ['C12:'],
     'trusted_base': ["model N2k/Model/Heartbeat.lean transcribes tN2kSyncScheduler (N2kTimer.h), SetHeartbeatIntervalAndOffset, "
